@@ -120,7 +120,7 @@ func (r *Real) Next(choice int) (o RealObs) {
 			if op.Line == nil {
 				return RealObs{Panic: "option without line (malformed element)"}
 			}
-			o.Opts = append(o.Opts, OptObs{Text: op.Line.Text, Tags: op.Line.Tags, Disabled: op.Disabled})
+			o.Opts = append(o.Opts, OptObs{Text: op.Line.Text, Tags: op.Line.Tags, Disabled: op.Disabled, Attrs: op.Line.Attributes})
 		}
 		return o
 	}
